@@ -73,7 +73,9 @@ def main():
                          "read out of the dense handle column): every free-list pop, growth, swap-remove and generation bump is one abstract create / destroy / mint or a stutter.")
             if pid in ("C13", "C17"):
                 text += (" Also: WorldMC with Events = TRUE carries each world's created / destroyed logs (create, destroy, clone, clone_from, clear_events at both levels, drop; "
-                         "invariant EventsOk); every transition of that model is replayed in the events build, the real logs are compared with the model's after every step and every step is judged by the contract.")
+                         "invariant EventsOk) and ecs_iter_destroy! with every set of two or more flagged entities as an action; TLC checks that this model implements the abstract worlds of AbsWorld.tla "
+                         "(refinement PROPERTY: operations are local to one world, clone copies live set and logs); every transition of the model is replayed in the events build, the real logs are compared "
+                         "with the model's after every step and every step is judged by the contract.")
             if pid == "C11":
                 text += " Clone is enumerated as inner leaf and as OUTER access (the body runs from inside a component's Clone::clone while clone holds the archetype's columns)."
             if pid == "C14":
